@@ -233,8 +233,8 @@ struct RC4Key {
         uint16_t ppk[6];
         const Dot11::address_type addr = dot11.addr2();
         // Phase 1
-        ppk[0] = join_bytes(pload[4], pload[5]);
-        ppk[1] = join_bytes(pload[6], pload[7]);
+        ppk[0] = join_bytes(pload[5], pload[4]);
+        ppk[1] = join_bytes(pload[7], pload[6]);
         ppk[2] = join_bytes(addr[1], addr[0]);
         ppk[3] = join_bytes(addr[3], addr[2]);
         ppk[4] = join_bytes(addr[5], addr[4]);
